@@ -1,12 +1,17 @@
 import DnsVerif.Lemmas.NameComplete
 import DnsVerif.Spec.Wire
+import DnsVerif.Lemmas.CompleteMsg
+import DnsVerif.Lemmas.SoundMsg
 
-/-! # C04 — every well-formed message of the supported types is accepted, exactly (part 1: names)
+/-! # C04 — every well-formed message of the supported types is accepted, exactly
 
 Part 1: every legal rendering of a name (pointers in either direction, up to 17 hops, any label case) is
-decoded to exactly that name and the cursor lands at the end of the stored part. Part 2
-(`decodeDns_complete : MsgAt b bk m → decodeDns b = .ok (m, _)`, from Lemmas/Complete*.lean) is appended
-when complete; until then PARTIAL. -/
+decoded to exactly that name and the cursor lands at the end of the stored part. Part 2: for EVERY buffer
+`b` and message value `m` with `MsgAt b bk m` (Spec/Wire.lean — the relation does not fix compression
+choices (pointers in either direction, up to 17 hops, so "backward compression up to 16 hops" is the
+special case `bk = true`), label case, prefix padding (any number of address octets up to the family size),
+SvcParam order, or whether variable fields are empty) the model of `Dns::decode` returns exactly `m` and
+consumes the whole buffer. Sizes from 12 to 65,536 octets. -/
 
 namespace C04
 
@@ -20,5 +25,32 @@ theorem name_complete {buf : Bytes} {bk : Bool} {off e lim c : Nat} {n : Name}
 
 /-! boundaries: a pointer whose target is the largest 14-bit offset is followed (the name at 0x3FFF is the root) -/
 example : ptrOff 0xFF 0xFF = 0x3FFF := by decide
+
+/-! ## Whole messages and elements -/
+
+/-- **T-complete.** Every legal rendering of a message of the supported vocabulary is accepted, exactly. -/
+theorem decodeDns_complete {b : Bytes} {bk : Bool} {m : Msg} (h : MsgAt b bk m) :
+    ∃ c, decodeDns b = .ok (m, { buf := b, off := b.length, lim := b.length, cost := c }) := Complete.decodeDns_complete h
+
+/-- the grammar is functional: a buffer renders at most one message ("the same abstract message" is well defined) -/
+theorem msg_unique {b : Bytes} {bk : Bool} {m₁ m₂ : Msg} (h1 : MsgAt b bk m₁) (h2 : MsgAt b bk m₂) : m₁ = m₂ :=
+  Complete.MsgAt.functional h1 h2
+
+theorem decodeRR_complete {b : Bytes} {bk : Bool} {rr : RR} {e : Nat} (h : RRAt b bk 0 rr e) (hB : b.length < 2 ^ 63) :
+    ∃ c, decodeRR b = .ok (rr, { buf := b, off := e, lim := b.length, cost := c }) := Complete.decodeRR_complete h hB
+theorem decodeQuestion_complete {b : Bytes} {bk : Bool} {q : Question} {e : Nat} (h : QuestionAt b bk 0 q e) (hB : b.length < 2 ^ 63) :
+    ∃ c, decodeQuestion b = .ok (q, { buf := b, off := e, lim := b.length, cost := c }) := Complete.decodeQuestion_complete h hB
+theorem decodeName_complete {b : Bytes} {bk : Bool} {n : Name} {e : Nat} (h : NameRefAt b bk 0 n e) (hB : b.length < 2 ^ 63) :
+    ∃ c, decodeName b = .ok (n, { buf := b, off := e, lim := b.length, cost := c }) := Complete.decodeName_complete h hB
+theorem decodeFlags_complete {b : Bytes} {f : Flags} (hf : FlagsOk f) (hb : BytesAt b 0 (beBytes 2 (flagsWord f))) (hB : b.length < 2 ^ 63) :
+    decodeFlags b = .ok (f, { buf := b, off := 2, lim := b.length, cost := 2 }) := Complete.decodeFlags_complete hf hb hB
+
+/-- acceptance is exactly the grammar: soundness (C03) and completeness together -/
+theorem accept_iff (b : Bytes) (m : Msg) : (∃ d, decodeDns b = .ok (m, d)) ↔ MsgAt b false m :=
+  ⟨fun ⟨_, h⟩ => Sound.decodeDns_sound h, fun h => by obtain ⟨c, hc⟩ := Complete.decodeDns_complete h; exact ⟨_, hc⟩⟩
+
+/-! boundaries: a chain of 17 pointers is a legal name reference, a chain of 18 is not -/
+theorem hops17_accepted : NameRefAt (Complete.ptrChain 17) false 0 [] 2 := Complete.ptrChain17_at
+theorem hops18_not_a_name : ¬ ∃ n e, NameRefAt (Complete.ptrChain 18) false 0 n e := Complete.ptrChain18_not_at
 
 end C04
